@@ -201,6 +201,11 @@ func procOnce(bin, sig string, at time.Duration, rps, procs int, resKind string,
       times: 2
 `, ln.Addr().String(), rps, at/time.Millisecond/2)
 	}
+	logFile := ""
+	if toStdout {
+		// the logger's default output is the standard output too: keep the result stream to itself
+		logFile = "\n  file: stderr"
+	}
 	cfg := fmt.Sprintf(`pools:
   - id: c06
     gun:
@@ -220,8 +225,8 @@ func procOnce(bin, sig string, at time.Duration, rps, procs int, resKind string,
       type: once
       times: 4
 %slog:
-  level: error
-`, ln.Addr().String(), resultConf, rps, duration, secondPool)
+  level: error%s
+`, ln.Addr().String(), resultConf, rps, duration, secondPool, logFile)
 	cfgPath := filepath.Join(dir, "load.yaml")
 	if err := os.WriteFile(cfgPath, []byte(cfg), 0o644); err != nil {
 		return procResult{inconclusive: "config"}
@@ -334,6 +339,9 @@ func procOnce(bin, sig string, at time.Duration, rps, procs int, resKind string,
 				}
 			} else if !phoutLineOK(l, "tagC06") {
 				res.bad++
+				if os.Getenv("C06_DEBUG") != "" {
+					fmt.Fprintf(os.Stderr, "bad line: %q\n", l)
+				}
 			}
 		}
 	}
